@@ -28,8 +28,8 @@ MANIFEST = dict(
          '(junction class z and p) -- pass-2 multiset = four-point cycles of the periodic reversal sequence rotated to its largest |load|, '
          'refinement insensitivity, stationarity of a third pass -- is proved BOUNDED: every sequence over {-3..3} of length <= 6 '
          '(vm_compute sweep + forallb_forall); the unbounded restricted statement is kept as a Definition and is not proved. '
-         'The model is tied to the code by correspondence on (loads_min, loads_max, is_closed_hysteresis, run_index) of every row and on the '
-         'open residual loads; the property relation itself is evaluated on the implementation on every run.',
+         'The model is tied to the code by correspondence on (loads_min, loads_max, is_closed_hysteresis, run_index) of every row of two- and '
+         'three-pass runs; the property relation itself is evaluated on the implementation on every run.',
     note=common.TB_NOTE + 'all C04 theorems are closed under the global context (no axioms). The model is hand-written: the correspondence harness, '
          'the injected integer-valued law object and the Python search oracle (tied to HCM/Periodic.v by vm_compute each run) are trusted; '
          'loads are integers in the model (exact on doubles; the 1e-12 tolerances of the code are irrelevant on an integer grid); '
@@ -109,9 +109,12 @@ def run(res):
     if quick:
         seqs += list(hcm.all_seqs(range(-2, 3), 4))
         nrand = 700
-    else:
+    elif common.NCPU >= 8:
         seqs += list(hcm.all_seqs(range(-2, 3), 6)) + list(hcm.all_seqs(range(-3, 4), 5))
         nrand = 8000
+    else:       # few cores (shared machine): the exhaustive {-3..3} <= 6 sweep of the MODEL is in the bounded theorems anyway
+        seqs += list(hcm.all_seqs(range(-2, 3), 5)) + list(hcm.all_seqs(range(-3, 4), 4))
+        nrand = 2500
     for _ in range(nrand):
         s = hcm.random_seq(rng, 40 if rng.random() < 0.3 else 14)
         seqs.append(s)
@@ -145,7 +148,7 @@ def run(res):
         owner.append(i)
     bad, log = common.coq_compare('C04', hcm.REQ, terms)
     badset = {owner[j] for j in bad}
-    res.oblige('correspondence: load model = implementation (rows + residual loads) and search oracle = Coq specification on %d sequences' % len(terms),
+    res.oblige('correspondence: load model = implementation (loads_min, loads_max, is_closed_hysteresis, run_index of every row) and search oracle = Coq specification on %d sequences' % len(terms),
                not bad, 'disagreeing sequences: %s\n%s' % ([seqs[owner[j]] for j in bad[:6]], log[-1200:]))
     res.cov['correspondence_disagreements'] = len(bad)
 
@@ -153,7 +156,9 @@ def run(res):
     # ---- D2: the property's relation on the implementation, every case
     nontriv, hist, n_viol = set(), {}, 0
     inclass = []
-    for i, (s, o) in enumerate(zip(seqs, outs)):
+    order = sorted(range(len(seqs)), key=lambda i: (not hcm.in_class(seqs[i]), len(seqs[i])))   # in-class, short first
+    for i in order:
+        s, o = seqs[i], outs[i]
         if o[0] != 'ok':
             continue
         rows = o[1][0]
@@ -165,8 +170,14 @@ def run(res):
             if any(r[3] == 2 for r in hcm.load_rows(rows)):
                 nontriv.add(tuple(s))
         if why:
+            agrees = i not in badset
+            if z and p and n_viol < 3:      # a new defect: minimise the input before reporting it
+                s2 = shrink(s)
+                if s2 != s:
+                    s, rows, agrees = s2, hcm.impl_run(s2)[0], False
+                    why = hcm.c04_relation(s, rows) or why
             lr = hcm.load_rows(rows)
-            new = res.violation(WHAT, sequence=s, detail=why, z=z, p=p, model_agrees=(i not in badset),
+            new = res.violation(WHAT, sequence=s, detail=why, z=hcm.z_class(s), p=hcm.p_class(s), model_agrees=agrees,
                                 observed_pass2=[r for r in lr if r[3] == 2], expected_pass2=hcm.steady_cycles(s))
             if new:
                 n_viol += 1
